@@ -18,12 +18,17 @@ import (
 
 var attrNames = []string{"a", "b", "l"}
 var attrSorts = map[string]vlang.Sort{"a": vlang.SI, "b": vlang.SI, "l": vlang.SL}
-var attrSet = map[string]bool{"a": true, "b": true, "l": true, "f": true, "g": true}
+var attrSet = map[string]bool{"a": true, "b": true, "l": true, "f": true, "g": true, "put": true, "get": true}
 
 // second attribute set: attributes that hold closures (called implicitly as f(..), explicitly as the
 // method-call form this.f(..), whose arguments are compiled with the receiver on the stack)
 var attrNamesF = []string{"a", "f", "g"}
 var attrSortsF = map[string]vlang.Sort{"a": vlang.SI, "f": vlang.SF2, "g": vlang.SF1}
+
+// third attribute set: closures stored under keys that are also names of map METHODS; the explicit form
+// this.get(x) is a method call on the map and has to call the stored closure exactly like the implicit get(x)
+var attrNamesM = []string{"a", "put", "get"}
+var attrSortsM = map[string]vlang.Sort{"a": vlang.SI, "put": vlang.SF2, "get": vlang.SF1}
 
 func addHost(g *value.FunctionGenerator) {
 	g.AddStaticFunction("obs2", funcGen.Function[value.Value]{
@@ -59,14 +64,15 @@ func maps(g *value.FunctionGenerator, av int) []mapArg {
 	}
 	fv := ev("(x,y)->x*100+y")
 	gv := ev("x->x+1")
-	lit := value.NewMap(listMap.New[value.Value](6).Append("a", value.Int(av)).Append("b", value.Int(2)).
-		Append("l", value.NewList(value.Int(1), value.Int(2))).Append("pi", value.Int(7)).Append("f", fv).Append("g", gv))
+	lit := value.NewMap(listMap.New[value.Value](8).Append("a", value.Int(av)).Append("b", value.Int(2)).
+		Append("l", value.NewList(value.Int(1), value.Int(2))).Append("pi", value.Int(7)).Append("f", fv).Append("g", gv).Append("put", fv).Append("get", gv))
 	return []mapArg{
 		{"literal", lit},
-		{"real(eval)", ev("{a:av,b:2,l:[1,2],pi:7,f:(x,y)->x*100+y,g:x->x+1}.eval()")},
-		{"append(put)", ev("{l:[1,2],f:(x,y)->x*100+y}.put(\"b\",2).put(\"pi\",7).put(\"g\",x->x+1).put(\"a\",av)")},
-		{"merge(+)", ev("{a:av,pi:7,g:x->x+1}+{b:2,l:[1,2],f:(x,y)->x*100+y}")},
-		{"replace", ev("{a:100,b:2,l:[1,2],pi:7,f:(x,y)->x*100+y,g:x->x+1}.replace(m->{a:av})")},
+		{"real(eval)", ev("{a:av,b:2,l:[1,2],pi:7,f:(x,y)->x*100+y,g:x->x+1,put:(x,y)->x*100+y,get:x->x+1}.eval()")},
+		// the closure stored under "put" goes in last: from then on .put(..) on this map calls that closure
+		{"append(put)", ev("{l:[1,2],f:(x,y)->x*100+y}.put(\"b\",2).put(\"pi\",7).put(\"g\",x->x+1).put(\"get\",x->x+1).put(\"a\",av).put(\"put\",(x,y)->x*100+y)")},
+		{"merge(+)", ev("{a:av,pi:7,g:x->x+1,put:(x,y)->x*100+y}+{b:2,l:[1,2],f:(x,y)->x*100+y,get:x->x+1}")},
+		{"replace", ev("{a:100,b:2,l:[1,2],pi:7,f:(x,y)->x*100+y,g:x->x+1,put:(x,y)->x*100+y,get:x->x+1}.replace(m->{a:av})")},
 	}
 }
 
@@ -182,6 +188,78 @@ func (h *harness) check(ctx *bex.Ctx, prog *vlang.Node, allMaps bool) {
 	}
 }
 
+// lateConstants: the generator is USED (GenerateWithMap with the same map name) before a constant or a
+// static function is added to it; afterwards "constants shadow attributes of the same name" must hold
+// for the next GenerateWithMap exactly as for Generate of the explicit form.
+func (h *harness) lateConstants(ctx *bex.Ctx) {
+	ctx.Space("constants-added-after-first-use")
+	v, I, op := vlang.V, vlang.I, vlang.Op
+	progs := []*vlang.Node{
+		op("+", v("a"), v("b")), op("*", v("b"), v("a")),
+		vlang.MethodN(vlang.MethodN(v("l"), "map", vlang.LamN([]string{"e"}, op("+", op("*", v("e"), v("b")), v("a")))), "sum"),
+		vlang.FuncN("f", []string{"n"}, vlang.IfN(op("<", v("n"), I(1)), v("b"), op("+", v("a"), vlang.CallN(v("f"), op("-", v("n"), I(1))))), vlang.CallN(v("f"), I(2))),
+		vlang.LetN("u", op("+", v("b"), I(1)), op("*", v("u"), v("a"))),
+		vlang.CallN(vlang.LamN([]string{"x"}, op("+", v("x"), v("b"))), v("a")),
+	}
+	warm := []string{"a", "a+b", "l.size()", "b"}
+	if ctx.Shard != 0 {
+		ctx.SpaceDone("see shard 0")
+		return
+	}
+	for _, opt := range []bool{true, false} {
+		for _, w := range warm {
+			for _, late := range []string{"constant b", "constant a", "static function b"} {
+				for _, p := range progs {
+					ctx.Eval()
+					g := vrun.NewGen(opt, addHost)
+					if _, _, err := g.GenerateWithMap(w, "this"); err != nil {
+						continue
+					}
+					switch late {
+					case "constant b":
+						g.AddConstant("b", value.Int(100))
+					case "constant a":
+						g.AddConstant("a", value.Int(1000))
+					case "static function b":
+						continue // a static function and an attribute of the same name: not specified by the property
+					}
+					src := vlang.Render(p)
+					explicit := vlang.Render(vlang.SubstFree(p, attrSet, func(name string) *vlang.Node {
+						if (late == "constant b" && name == "b") || (late == "constant a" && name == "a") {
+							return vlang.V(name) // the constant shadows the attribute
+						}
+						return vlang.MemberN(vlang.V("this"), name)
+					}))
+					fi, _, erri := g.GenerateWithMap(src, "this")
+					fe, _, erre := g.Generate(explicit, "this")
+					repro := map[string]any{"src": src, "explicit": explicit, "optimizer": opt, "warm_up": w, "added_after_first_use": late}
+					if (erri != nil) != (erre != nil) {
+						ctx.Violate("GenerateWithMap and the explicit form disagree at Generate time after a constant was added to a generator already in use", repro, fmt.Sprint(erre), fmt.Sprint(erri), "")
+						continue
+					}
+					if erri != nil {
+						continue
+					}
+					for ai := range h.args {
+						for _, ma := range h.args[ai][:2] {
+							oi := vrun.Eval(fi, []value.Value{ma.m})
+							oe := vrun.Eval(fe, []value.Value{ma.m})
+							ctx.Outcome("late-constant/" + oe.Class())
+							if !oe.Err {
+								ctx.Nontrivial("late|" + src + w + late)
+							}
+							if oi.Err != oe.Err || (!oi.Err && oi.Canon != oe.Canon) {
+								ctx.Violate("a constant added after the generator's first use does not shadow the attribute in GenerateWithMap", repro, "explicit: "+oe.String(), "implicit: "+oi.String(), "")
+							}
+						}
+					}
+				}
+			}
+		}
+	}
+	ctx.SpaceDone("6 programs x 4 warm-up expressions generated with GenerateWithMap on the same map name first x {constant b, constant a} added afterwards x optimizer on/off x 2 maps x a in {0,3}: the constant shadows the attribute in both forms")
+}
+
 func run(ctx *bex.Ctx) {
 	h := newHarness()
 	maxA, maxB := 6, 3
@@ -254,6 +332,28 @@ func run(ctx *bex.Ctx) {
 		}
 	}
 	ctx.SpaceDone(fmt.Sprintf("every int-sorted program of the typed grammar with <= %d nodes over attributes a (int), f ((int,int)->int), g (int->int): calls of closure-valued attributes with let/func inside their arguments; implicit f(..) against the method-call form this.f(..); plus 3 fixed templates on all 5 map representations", maxA))
+
+	ctx.Space("closures-under-method-names")
+	{
+		en := vlang.DefaultEnum()
+		idx = 0
+		for n := 1; n <= maxA-1 && !ctx.Expired(); n++ {
+			en.Gen(vlang.SI, n, vlang.NewAttrScope(attrSortsM, attrNamesM), true, func(p *vlang.Node) bool {
+				idx++
+				if !ctx.Mine(idx) {
+					return true
+				}
+				if ctx.Expired() {
+					return false
+				}
+				h.check(ctx, p, false)
+				return true
+			})
+		}
+	}
+	ctx.SpaceDone(fmt.Sprintf("every int-sorted program of the typed grammar with <= %d nodes over attributes a (int), put ((int,int)->int), get (int->int): closures stored under keys that are also names of map methods, called implicitly (get(x)) and as this.get(x)", maxA-1))
+
+	h.lateConstants(ctx)
 
 	ctx.Space("tierA-typed-grammar")
 	en := vlang.DefaultEnum()
